@@ -2,5 +2,15 @@
 package all
 
 import (
+	_ "verifharness/props/c02"
 	_ "verifharness/props/c03"
+	_ "verifharness/props/c04"
+	_ "verifharness/props/c08"
+	_ "verifharness/props/c09"
+	_ "verifharness/props/c12"
+	_ "verifharness/props/c13"
+	_ "verifharness/props/c15"
+	_ "verifharness/props/c16"
+	_ "verifharness/props/c19"
+	_ "verifharness/props/c20"
 )
